@@ -924,6 +924,10 @@ class FuncVerifier:
         if bt.is_map:
             k = self.ev(node.slice, st, spec)
             kt = box(k)
+            if bt.name == 'defaultlist':
+                # defaultdict(list): a missing key reads as [] (the insertion it causes is not observable through
+                # the read itself; stores go through assign_into)
+                return SV(z3.If(P.has(base.term, kt), P.get(base.term, kt), P.seq_empty), bt.args[1])
             self.safety(st, 'key', P.has(base.term, kt), node, spec)
             return self.extract(st, P.get(base.term, kt), bt.args[1], spec)
         self.err(node, 'subscript on %r' % bt)
@@ -1023,6 +1027,10 @@ class FuncVerifier:
             sv = self.global_value(self.module.imports[node.value.id] + '.' + node.attr, st)
             if sv is not None:
                 return sv
+            if self.module.imports[node.value.id] not in self.E.fe.modules and \
+                    not self.module.imports[node.value.id].startswith('src'):
+                # a constant of a library module (re.MULTILINE, ...): an opaque value
+                return SV(z3.Const('ext!%s.%s' % (self.module.imports[node.value.id], node.attr), P.V), ANY)
         if isinstance(node.value, ast.Name):
             sv = self.global_value(node.value.id + '.' + node.attr, st)
             if sv is not None and node.value.id not in st.env:
@@ -1244,7 +1252,7 @@ class FuncVerifier:
                 vty = sv.ty if bt.args[1].is_any else T.join(bt.args[1], sv.ty)
                 if vty.is_any and not bt.args[1].is_any:
                     vty = bt.args[1]
-                new = SV(P.put(base.term, box(coerce(k, kty)), box(coerce(sv, vty))), T.Map(kty, vty))
+                new = SV(P.put(base.term, box(coerce(k, kty)), box(coerce(sv, vty))), T.Ty('map', (kty, vty), bt.name))
                 self.assign_into(target.value, new, st)
                 return
             if bt.is_seq:
